@@ -97,7 +97,7 @@ func c18Def(name string) lexer.Definition {
 const c18Rule = "strings s (rapid strings, raw bytes, escape mixes) quoted by strconv.Quote / QuoteToASCII / hand-assembled escapes (\\x, \\u, \\U, " +
 	"octal, \\a..\\v, other quote), back-quoted when strconv.CanBackquote(s) (also with \\r), single-quoted runes, corrupted escapes, mixed with " +
 	"identifiers/numbers; lexers: default text/scanner and a stateful one with permissive string rules and elided whitespace; 1-3 mapper " +
-	"options per parser (Unquote / Upper with disjoint type selections, a recording Map); oracle: strconv.Unquote(token text) for selected " +
+	"options per parser (Unquote / Upper with disjoint type selections, a recording Map), given before or after the Lexer option; oracle: strconv.Unquote(token text) for selected " +
 	"literal tokens, strings.ToUpper for Upper, everything else and every position identical to the unmapped lexer's stream, the recorder " +
 	"sees each non-EOF token of its types exactly once in stream order (elided included); an escape strconv rejects must give an error " +
 	"located at that token; non-trivial = some selected literal contains a backslash, quote, newline, non-ASCII or invalid-UTF-8 escape; " +
